@@ -44,15 +44,15 @@ type lock struct {
 }
 
 type World struct {
-	N       *node.Node
-	R       *rand.Rand
-	Pending map[types.Address][]types.Hash // confirmed sends to user accounts not yet received
-	ToContracts []types.Hash               // recent confirmed sends addressed to embedded contracts
-	Fusions []lock
-	Stakes  []lock
-	Htlcs   []htlc
-	Tokens  []token
-	Log     []string
+	N           *node.Node
+	R           *rand.Rand
+	Pending     map[types.Address][]types.Hash // confirmed sends to user accounts not yet received
+	ToContracts []types.Hash                   // recent confirmed sends addressed to embedded contracts
+	Fusions     []lock
+	Stakes      []lock
+	Htlcs       []htlc
+	Tokens      []token
+	Log         []string
 	// statistics
 	Submitted, RejectedAtSend int
 	Methods                   map[string]int
